@@ -84,7 +84,7 @@ func TestVerifC09(t *testing.T) {
 	nL4 := vk.Scale(150, 3000)
 	nL5 := vk.Scale(180, 3600)
 	nL6 := vk.Scale(2, 30) // passes over the full set of size shapes
-	nL7 := vk.Scale(40, 600)
+	nL7 := vk.Scale(120, 1500)
 	stop := func() bool { return m.Violations() >= 8 && os.Getenv("VERIF_C09_NOSTOP") == "" }
 	only := os.Getenv("VERIF_C09_LAYERS") // diagnosis only, e.g. "L3" or "L1,L1r"; a partial run ends INCONCLUSIVE
 	layer := func(name string, n int, f func(i int)) {
